@@ -141,7 +141,7 @@ def check_histories(pid, hists, fields, acceptor=None, known=(), max_report=3, w
         dv = diverge(io[0], mo[0], fields) or dv
         verdict = acceptor(hs, io[0]) if acceptor else None
         payload = {
-            'property': pid, 'kind': 'correspondence', 'cfg': hs['cfg'], 'ops': tag(hs['ops']),
+            'property': pid, 'kind': 'correspondence', 'cfg': hs['cfg'], 'cls': hs.get('cls'), 'ops': tag(hs['ops']),
             'first_divergence': dv,
             'model_part': 'DC.Model.Cache (line protocol driver); field=' + str(dv.get('field')),
             'acceptor': verdict,
@@ -252,7 +252,12 @@ def replay_file(path, pid, fields, acceptor):
     with open(path) as f:
         payload = json.load(f)
     hist = {'cfg': payload['cfg'], 'ops': fix_ops(payload['ops']), 'state_every': 1}
-    r = check_histories(pid, [hist], fields, acceptor=acceptor)
+    runner = None
+    if payload.get('cls'):
+        import layers
+        hist['cls'] = payload['cls']
+        runner = layers.layer_chunk
+    r = check_histories(pid, [hist], fields, acceptor=acceptor, runner=runner)
     return {'evaluations': len(hist['ops']), 'distinct_nontrivial': len(hist['ops']), 'rule': 'replay of ' + path,
             'samples': [sample(hist, r['impl_out'][0])], 'traces': 1, 'violations': r['violations'], 'known': r['known']}
 
